@@ -25,10 +25,10 @@ func PathOf(s string, frombit int32, height int32) uint64 {
 func PathsOf(keys []string, frombit int32, height int32, dedup bool) []uint64 {
 	l := len(keys)
 	rst := make([]uint64, 0, l)
-	prev := ^uint64(0)
-	for _, s := range keys {
+	prev := uint64(0)
+	for i, s := range keys {
 		p := PathOf(s, frombit, height)
-		if !dedup || p != prev {
+		if !dedup || i == 0 || p != prev {
 			rst = append(rst, p)
 		}
 		prev = p
